@@ -218,8 +218,6 @@ class KeepAliveWire(Unit):
             pkt = clientbound.play.KeepAlivePacket()
             field = 'keep_alive_id'
         else:
-            if not I.truth(i >= I107):
-                return None
             pkt = clientbound.play.PlayerPositionAndLookPacket()
             field = 'teleport_id'
         I.setattr_(pkt, 'context', ctx)
@@ -228,7 +226,6 @@ class KeepAliveWire(Unit):
             # the server's bytes are built from the SPECIFICATION of the packet (spec/protocol_ref.py), not from the
             # library's own definition: a Long from protocol 339 on, a canonical VarInt before
             from spec import protocol_ref as REF, wire_sym as WS
-            import z3
             if I.truth(i >= minecraft.PROTOCOL_VERSION_INDICES[REF.KEEPALIVE_LONG_FROM]):
                 spec_wire = SBytes([E.new_byte('id[%d]' % k) for k in range(8)])
             else:
@@ -245,16 +242,33 @@ class KeepAliveWire(Unit):
             E.check('wire.keepalive-consumed', I.equals(stream.reader.remaining().length(), 0),
                     note='the id field occupies exactly the bytes the specification says (8 from protocol 339, a VarInt before)')
         else:
-            # only the id matters: decode it from arbitrary wire bytes with the field's own type
-            stream = ArbitraryStream(I, 'wire')
+            # the whole packet as the SPECIFICATION lays it out for this version (spec/protocol_ref.py): 3 doubles, 2 floats,
+            # the flags byte, a VarInt teleport id from 107 on, the dismount flag from 755 on -- any content
+            from spec import protocol_ref as REF, wire_sym as WS
+            items = [E.new_byte('pos[%d]' % k) for k in range(8 * 3 + 4 * 2 + 1)]
+            v = None
+            if I.truth(i >= minecraft.PROTOCOL_VERSION_INDICES[REF.TELEPORT_ID_FROM]):
+                v = E.new_int('id', 0, (1 << 32) - 1)
+                k = 1 + E.fork(5, 'varint-length')
+                E.assume(SBool(WS.varint_len_cond(v.t, k)))
+                spec_wire = SBytes([('byte', t) for t in WS.varint_terms(v.t, k)])
+                items += list(spec_wire.atoms)
+            if I.truth(i >= minecraft.PROTOCOL_VERSION_INDICES[REF.DISMOUNT_FROM]):
+                flag = E.new_byte('dismount')
+                E.assume(SBool(z3.ULE(flag[1], z3.BitVecVal(1, 8))))
+                items.append(flag)
+            stream = InStream(I, SBytes(items))
             try:
-                from minecraft.networking.types import VarInt
-                tid = I.call(raw(VarInt, 'read'), VarInt, stream)
-            except PyRaise:
+                I.call(I.getattr_(pkt, 'read'), stream)
+            except PyRaise as e:
+                E.check('wire.position-decodable', False, note='a position-and-look packet built per the protocol specification is '
+                        'rejected: %r' % (e.exc,))
                 return None
-            for n in ('x', 'y', 'z', 'yaw', 'pitch'):
-                setattr(pkt, n, 0.0)
-            pkt.flags, pkt.teleport_id = 0, tid
+            E.check('wire.position-consumed', I.equals(stream.reader.remaining().length(), 0),
+                    note='the packet occupies exactly the bytes the specification says for this version (teleport id from 107, '
+                         'dismount flag from 755)')
+            if v is None:
+                return None            # before 107 there is no id to confirm; the echoing answer is PlaySteps' teleport.step-legacy
         got = getattr(pkt, field)
         try:
             I.call(I.getattr_(r, 'react'), pkt)
@@ -284,6 +298,12 @@ class KeepAliveWire(Unit):
     def replay(self, model, label):
         from spec import wire as W, protocol_ref as REF
         i = int(model.get('i', 0))
+        if 'position' in label:
+            for j in [i] + supported_indices_():
+                rp = replay_position_wire(j, int(model.get('id', 0)) if j == i else 300)
+                if rp['confirmed']:
+                    return rp
+            return rp
         if protocol_of_index(i) >= REF.KEEPALIVE_LONG_FROM:
             data = bytes(int(model.get('id[%d]' % k, 0)) & 0xFF for k in range(8))
         else:
@@ -303,13 +323,67 @@ class KeepAliveWire(Unit):
                 if rp['confirmed']:
                     fails.append(dict(call=rp['call'], observed=rp['observed'], witness='keepalive-wire'))
                     break
+        for i in supported_indices_():
+            if fails:
+                break
+            for v in (0, 127, 2 ** 31 - 1):
+                cnt += 1
+                rp = replay_position_wire(i, v)
+                if rp['confirmed']:
+                    fails.append(dict(call=rp['call'], observed=rp['observed'], witness='position-wire'))
+                    break
         return dict(name='C11.keepalive.wire-values', evaluations=cnt, failures=fails[:1],
-                    bound='a tenth of the supported versions x ids at the VarInt / Long boundaries, through real codecs')
+                    bound='a tenth of the supported versions x keep-alive ids at the VarInt / Long boundaries, and every supported '
+                          'version x 3 teleport ids in a position-and-look packet laid out per the specification, through real codecs')
 
 
 def supported_indices_():
     from .common import supported_indices
     return supported_indices()
+
+
+def replay_position_wire(i, tid):
+    """A clientbound position-and-look packet laid out per spec/protocol_ref.py for the version at index i, through the real
+    decoder and the real reaction."""
+    import io
+    import struct
+    from spec import wire as W, protocol_ref as REF
+    from minecraft.networking.packets import PacketBuffer
+    idx = minecraft.PROTOCOL_VERSION_INDICES
+    ctx = real_context(i)
+    data = struct.pack('>dddffb', 1.5, 64.0, -2.25, 90.0, -10.0, 0)
+    has_id = i >= idx[REF.TELEPORT_ID_FROM]
+    if has_id:
+        data += W.varint_enc(tid)
+    if i >= idx[REF.DISMOUNT_FROM]:
+        data += b'\x01'
+    conn = native_connection()
+    conn.context, conn._outgoing_packet_queue, conn.spawned = ctx, deque(), False
+    r = PlayingReactor(conn)
+    pkt = clientbound.play.PlayerPositionAndLookPacket(ctx)
+    src = io.BytesIO(data)
+    where = 'position-and-look packet %s (laid out per the specification) at protocol %d' % (data.hex(), protocol_of_index(i))
+    k, v = native_call(pkt.read, src)
+    if k != 'ok':
+        return dict(confirmed=True, call=where, observed='rejected: %r' % (v,))
+    rest = src.read()
+    if rest:
+        return dict(confirmed=True, call=where, observed='%d bytes of the packet were left undecoded' % len(rest))
+    k, v = native_call(r.react, pkt)
+    bad = None
+    q = list(conn._outgoing_packet_queue)
+    if k != 'ok':
+        bad = 'the reaction raised %r' % (v,)
+    elif len(q) != 1:
+        bad = '%d answers queued' % len(q)
+    elif conn.spawned is not True:
+        bad = 'the client is not marked as spawned'
+    elif has_id and not (type(q[0]) is serverbound.play.TeleportConfirmPacket and q[0].teleport_id == tid):
+        bad = 'answer %r does not confirm teleport id %d' % (q[0], tid)
+    elif not has_id and not (type(q[0]) is serverbound.play.PositionAndLookPacket and
+                             (q[0].x, q[0].feet_y, q[0].z, q[0].yaw, q[0].pitch) == (1.5, 64.0, -2.25, 90.0, -10.0)):
+        bad = 'answer %r does not echo the position' % (q[0],)
+    return dict(confirmed=bad is not None, call=where, observed=bad or 'conforms')
 
 
 def replay_wire(i, data):
